@@ -318,3 +318,84 @@ Proof.
   rewrite (xml_is_doc_bytes o t Hc). unfold doc_bytes, tree_to_xtree.
   rewrite node_bytes_is_write by exact Hl. reflexivity.
 Qed.
+
+(* ---------------------------------------------------------------- totality is exactly cells_ok *)
+Lemma arm_ok_cell name par gp ix acc r :
+  xml_arm name TableCell (mkCtx par gp ix) acc = Ok r -> cell_ok par gp ix = true.
+Proof.
+  cbn [xml_arm c_parent c_grand c_ix]. destruct par as [p|]; [|discriminate].
+  destruct gp as [g|]; [|discriminate]. rewrite cell_match. unfold cell_ok.
+  destruct (header_table (Some p) (Some g)) as [t|]; [|reflexivity].
+  destruct (nth_error (t_aligns t) ix) as [a|] eqn:E; [|discriminate].
+  intros _. apply Nat.ltb_lt. apply nth_error_Some. rewrite E. discriminate.
+Qed.
+
+Lemma node_ok_cells o : forall t par gp ix ind acc a,
+  xml_node o par gp ix ind t acc = Ok a -> cells_ok_at par gp ix t = true.
+Proof.
+  induction t as [v sp ch IH] using node_ind2. intros par gp ix ind acc a H.
+  cbn [xml_node] in H. cbn [cells_ok_at].
+  destruct (xml_enter o (mkCtx par gp ix) ind v sp match ch with [] => false | _ :: _ => true end acc) as [a1| |] eqn:Ee;
+    try discriminate.
+  cbn [bind] in H.
+  set (ind' := if match ch with [] => false | _ :: _ => true end then ind + 2 else ind) in *.
+  destruct (xml_list (fun i c a => xml_node o (Some v) par i ind' c a) ch 0 a1) as [a2| |] eqn:El; try discriminate.
+  apply andb_true_iff. split.
+  - destruct v; try reflexivity. unfold xml_enter in Ee.
+    match type of Ee with context [xml_arm ?n TableCell ?c ?x] => destruct (xml_arm n TableCell c x) eqn:Ea end;
+      try discriminate.
+    eapply arm_ok_cell. exact Ea.
+  - clear Ee H. clearbody ind'. revert a1 a2 El. generalize 0 as i.
+    induction ch as [|c r IHr]; intros i a1 a2 El; cbn [forallb_ix]; [reflexivity|].
+    inversion IH as [|? ? Hc Hr]; subst. cbn [xml_list] in El.
+    destruct (xml_node o (Some v) par i ind' c a1) as [a3| |] eqn:Ec; try discriminate.
+    cbn [bind] in El. rewrite (Hc _ _ _ _ _ _ Ec). cbn [andb]. eapply IHr; [exact Hr | exact El].
+Qed.
+
+Lemma xml_ok_iff o t : (exists b, xml o t = Ok b) <-> cells_ok t = true.
+Proof.
+  split; [|apply xml_total].
+  intros [b H]. unfold xml in H.
+  destruct (xml_node o None None 0 0 t (emit xml_prolog [])) as [a| |] eqn:E; try discriminate.
+  eapply node_ok_cells. exact E.
+Qed.
+
+(* witnesses: without the cell conditions the model panics *)
+Definition sp0 : sourcepos := mkSp 0 0 0 0.
+Definition orphan_cell : node := Node TableCell sp0 [].
+Definition wide_header : node :=
+  Node Document sp0
+    [Node (Table (mkTable 1 1 1 [ALeft])) sp0
+       [Node (TableRow true) sp0 [Node TableCell sp0 []; Node TableCell sp0 []]]].
+
+Lemma xml_total_refuted :
+  forall o, (exists s, xml o orphan_cell = Panic s) /\ (exists s, xml o wide_header = Panic s).
+Proof.
+  intro o. split; eexists.
+  - unfold xml, orphan_cell. cbn [xml_node]. unfold xml_enter. cbn [xml_arm c_parent bind].
+    destruct (o_sourcepos o && negb (sl sp0 =? 0)%N); reflexivity.
+  - unfold xml, wide_header. cbn. reflexivity.
+Qed.
+
+(* ---------------------------------------------------------------- indentation *)
+Lemma repeat_bytes_length n b : List.length (repeat_bytes n b) = n.
+Proof. induction n as [|n IH]; [reflexivity|]. cbn [repeat_bytes List.length]. rewrite IH. reflexivity. Qed.
+
+Lemma indent_capped ind : List.length (indent_bytes ind) <= 40 /\ forallb (beqb x20) (indent_bytes ind) = true.
+Proof.
+  unfold indent_bytes. rewrite repeat_bytes_length. split.
+  - change max_indent with 40. lia.
+  - induction (Nat.min ind max_indent) as [|n IH]; [reflexivity|]. cbn [repeat_bytes forallb]. exact IH.
+Qed.
+
+(* kinds are recoverable from element names *)
+Definition names_distinct : bool :=
+  forallb (fun a => forallb (fun b => implb (bytes_eqb (spec_name a) (spec_name b)) (kind_eqb a b)) all_kinds) all_kinds.
+
+Lemma spec_name_injective a b : spec_name a = spec_name b -> a = b.
+Proof.
+  intro H. assert (names_distinct = true) as D by (vm_compute; reflexivity).
+  unfold names_distinct in D. rewrite forallb_forall in D. specialize (D a (all_kinds_complete a)).
+  rewrite forallb_forall in D. specialize (D b (all_kinds_complete b)).
+  apply bytes_eqb_eq in H. rewrite H in D. cbn [implb] in D. apply kind_eqb_eq. exact D.
+Qed.
